@@ -32,7 +32,7 @@ func (c02) RequiredBuckets(tier string) []string {
 		}
 		out = append(out, op+"|guest:empty", op+"|guest:empty-with-features", op+"|guest:plain", op+"|guest:features", op+"|host:genbank", op+"|host:basic")
 	}
-	out = append(out, "cmd:insert", "cmd:insert -e", "cmd:infix", "stream:records-independent")
+	out = append(out, "cmd:insert", "cmd:insert -e", "cmd:infix", "stream:records-independent", "cache-on:after-sibling")
 	return out
 }
 
